@@ -33,21 +33,37 @@ func DefaultUniverse() Universe {
 }
 
 type Opts struct {
-	Fork      int  // index into impl.Forks
-	Depth     int  // nesting budget for call targets
-	Cancun    bool // allow TLOAD/TSTORE/MCOPY
-	NoCreate  bool
-	NoSuicide bool
-	MaxSnips  int
-	Journal   bool // allow journal opcodes (never for reference comparison)
-	SmallMem  bool // keep memory offsets small (cases carry memory snapshots)
+	Fork         int  // index into impl.Forks
+	Depth        int  // nesting budget for call targets
+	Cancun       bool // allow TLOAD/TSTORE/MCOPY
+	NoCreate     bool
+	NoSuicide    bool
+	MaxSnips     int
+	Journal      bool // allow journal opcodes (never for reference comparison)
+	SmallMem     bool // keep memory offsets small (cases carry memory snapshots)
+	NoGasObserve bool // no GAS opcode, calls pass a fixed gas amount (pair runs must not observe the fee difference)
+	PadJournal   bool // follow each journal opcode popping n operands by n-1 JUMPDESTs (pair runs: same length as n POPs)
 }
 
 type gen struct {
-	r *rng.R
-	u Universe
-	o Opts
-	b *asm.B
+	r     *rng.R
+	u     Universe
+	o     Opts
+	b     *asm.B
+	sites []int // positions of journal opcodes
+}
+
+var journalPops = map[byte]int{0xe0: 3, 0xe1: 4, 0xe2: 6, 0xe3: 5, 0xe4: 6, 0xe5: 5, 0xe6: 4, 0xe7: 2}
+
+// jop emits a journal opcode (and its padding when requested)
+func (g *gen) jop(op byte) {
+	g.sites = append(g.sites, g.b.Len())
+	g.b.Op(op)
+	if g.o.PadJournal {
+		for i := 1; i < journalPops[op]; i++ {
+			g.b.Op(asm.JUMPDEST)
+		}
+	}
 }
 
 func (g *gen) smallWord() *big.Int {
@@ -136,6 +152,9 @@ func (g *gen) snippet() {
 		if op == 0x3d && f < 4 {
 			op = 0x30
 		}
+		if op == 0x5a && g.o.NoGasObserve {
+			op = 0x30
+		}
 		b.Op(op)
 		g.sink()
 	case x < 31:
@@ -182,7 +201,11 @@ func (g *gen) snippet() {
 		case 0:
 			b.Push(size).Push(src).Push(dst).Op(asm.CALLDATACOPY)
 		case 1:
-			b.Push(size).Push(src).Push(dst).Op(asm.CODECOPY)
+			if g.o.NoGasObserve { // the pair variants differ in code: do not let the program read its own code
+				b.Push(size).Push(src).Push(dst).Op(asm.CALLDATACOPY)
+			} else {
+				b.Push(size).Push(src).Push(dst).Op(asm.CODECOPY)
+			}
 		case 2:
 			b.Push(size).Push(src).Push(dst).PushAddr(g.anyAddr()).Op(0x3c) // EXTCODECOPY
 		default:
@@ -315,14 +338,16 @@ func (g *gen) journal() {
 		if g.r.Intn(10) == 0 {
 			off = 32 + uint64(g.r.Intn(3)) // malformed
 		}
-		b.Push(ty).Push(off).Push(slot).Push(0x300).Op(0xe1)
+		b.Push(ty).Push(off).Push(slot).Push(0x300)
+		g.jop(0xe1)
 		n := 1 + g.r.Intn(2)
 		for i := 0; i < n; i++ {
 			size := uint64(g.r.Intn(33 - int(off%32)))
 			if g.r.Intn(12) == 0 {
 				size = 33
 			}
-			b.Push(ty).Push(size).Push(off).Push(slot).Op(0xe6)
+			b.Push(ty).Push(size).Push(off).Push(slot)
+			g.jop(0xe6)
 		}
 	} else { // reference typed: store a short string first
 		content := g.r.Bytes(g.r.Intn(32))
@@ -335,8 +360,10 @@ func (g *gen) journal() {
 		if !g.r.Chance(1, 4) {
 			b.PushBytes(w).Push(slot).Op(asm.SSTORE)
 		}
-		b.Push(ty).Push(slot).Push(0x300).Op(0xe0)
-		b.Push(ty).Push(slot).Op(0xe7)
+		b.Push(ty).Push(slot).Push(0x300)
+		g.jop(0xe0)
+		b.Push(ty).Push(slot)
+		g.jop(0xe7)
 	}
 }
 
@@ -359,7 +386,13 @@ func (g *gen) call() {
 		b.Push(vals[g.r.Intn(len(vals))])
 	}
 	b.PushAddr(target)
-	switch g.r.Intn(6) {
+	gasChoice := g.r.Intn(6)
+	if g.o.NoGasObserve {
+		gasChoice = 6
+	}
+	switch gasChoice {
+	case 6:
+		b.Push(60000)
 	case 0:
 		b.Push(uint64(g.r.Intn(3000)))
 	case 1:
@@ -417,6 +450,12 @@ func (g *gen) create() {
 
 // Program returns one contract body.
 func Program(r *rng.R, u Universe, o Opts) []byte {
+	code, _ := ProgramSites(r, u, o)
+	return code
+}
+
+// ProgramSites also returns the positions of the journal opcodes it emitted.
+func ProgramSites(r *rng.R, u Universe, o Opts) ([]byte, []int) {
 	g := &gen{r: r, u: u, o: o, b: asm.New()}
 	n := 1 + r.Intn(o.MaxSnips)
 	for i := 0; i < n; i++ {
@@ -433,7 +472,7 @@ func Program(r *rng.R, u Universe, o Opts) []byte {
 			g.b.Push(uint64(r.Intn(70))).Push(g.memOff()).Op(asm.REVERT)
 		}
 	}
-	return g.b.Bytes()
+	return g.b.Bytes(), g.sites
 }
 
 // Malformed returns a byte string that is not a well-formed program: random bytes, truncated pushes,
